@@ -647,8 +647,8 @@ def tests(tier):
     s_t = s_case(tier, {"tampers": st.lists(tam, min_size=10, max_size=10), "na": name, "nb": name})      # long certificates: altered messages on the multi-block read path of the drivers
     s_m = s_case(tier, {"kind": st.integers(0, 29), "var": st.integers(0, 11)})
     return [
-        Test("honest", s_h, run_honest, {"quick": 400, "thorough": 6000}, CFG),
-        Test("tamper", s_t, run_tamper, {"quick": 300, "thorough": 4000}, CFG),
+        Test("honest", s_h, run_honest, {"quick": 800, "thorough": 8000}, CFG),
+        Test("tamper", s_t, run_tamper, {"quick": 600, "thorough": 6000}, CFG),
         Sweep("alloct", sweep_alloct, 16, CFG),
-        Test("mismatch", s_m, run_mismatch, {"quick": 300, "thorough": 4000}, CFG),
+        Test("mismatch", s_m, run_mismatch, {"quick": 600, "thorough": 6000}, CFG),
     ]
